@@ -117,11 +117,12 @@ type Exec struct {
 	aliasResolve bool // resolve select-over-store aliasing with the solver under the path condition
 	aliasQ       int
 
-	curThread int
-	vcs       [][]int
-	locs      map[string]*locState
-	ctxRel    map[int][]int
-	raceSeen  map[string]bool
+	curThread  int
+	vcs        [][]int
+	locs       map[string]*locState
+	ctxRel     map[int][]int
+	raceSeen   map[string]bool
+	raceChecks int
 }
 
 // environment of the command-line tools (C19): flags, the input file and the
@@ -210,8 +211,8 @@ type Observation struct {
 }
 
 type PathResult struct {
-	Observed []Observation
-	PCs      []*Term
+	Observed    []Observation
+	PCs         []*Term
 	Decisions   []decision
 	Obligations []Obligation
 	Status      string
@@ -2085,6 +2086,7 @@ func (e *Exec) access(p *PtrV, write, atomic bool, where string) {
 	if len(e.threads) == 0 || p.obj == nil {
 		return
 	}
+	e.raceChecks++
 	k := locKey(p)
 	ls := e.locs[k]
 	if ls == nil {
